@@ -122,8 +122,36 @@ class _Selector:
         pass
 
 
+class _StableTimer(asyncio.TimerHandle):
+    """Timers with equal deadlines fire in the order they were armed.  (The standard heap breaks ties by its own shape, so
+    an unrelated timer of the harness could swap two library timers due at the same instant.)"""
+    __slots__ = ('_seq',)
+
+    def __lt__(self, other: Any) -> bool:
+        return (self._when, self._seq) < (other._when, other._seq)
+
+    def __le__(self, other: Any) -> bool:
+        return (self._when, self._seq) <= (other._when, other._seq)
+
+    def __gt__(self, other: Any) -> bool:
+        return (self._when, self._seq) > (other._when, other._seq)
+
+    def __ge__(self, other: Any) -> bool:
+        return (self._when, self._seq) >= (other._when, other._seq)
+
+
 class VLoop(asyncio.BaseEventLoop):
     """Event loop whose clock only moves when nothing is ready."""
+    _timer_seq = 0
+
+    def call_at(self, when, callback, *args, context=None):  # type: ignore[override]
+        self._check_closed()
+        timer = _StableTimer(when, callback, args, self, context)
+        VLoop._timer_seq += 1
+        timer._seq = VLoop._timer_seq
+        heapq.heappush(self._scheduled, timer)
+        timer._scheduled = True
+        return timer
 
     def __init__(self) -> None:
         super().__init__()
@@ -273,7 +301,14 @@ class Host:
     def inject(self, data: bytes, src: str = '10.0.0.99', port: int = MDNS_PORT, sock: int = 0,
                tag: Optional[str] = None) -> None:
         """Deliver a datagram to one of this host's sockets right now (synchronously)."""
-        self.net._deliver(self.sockets[sock], data, (src, port), tag=tag, injected=True)
+        rs = self.sockets[sock]
+        if rs.family == socket.AF_INET6:
+            # what a (dual-stack) IPv6 socket reports: a 4-tuple, IPv4 peers as v4-mapped addresses
+            a = src if ':' in src else '::ffff:' + src
+            source: tuple = (a, port, 0, rs.scope if a.startswith('fe80') else 0)
+        else:
+            source = (src, port)
+        self.net._deliver(rs, data, source, tag=tag, injected=True)
 
     def __repr__(self) -> str:
         return f'<Host {self.name} {self.addr}>'
